@@ -12,7 +12,8 @@ RULE = ("cubes and 2D sections with extents on residues of the blockshape (parti
         "every dimension and in none) x layouts x rates x routes {NumPy, SEG-Y segyio, SEG-Y reduced-I/O, 2D}: "
         "get_source_data_hash() == SHA-1 of the source's real float32 samples in trace order; equal across settings; all "
         "single-sample perturbations of small cubes change it; re-blocking carries it unchanged; correspondence: logged "
-        "hash_object.update stream vs Lean Writer.hashFeed")
+        "hash_object.update stream vs Lean Writer.hashFeed"
+        "; K: byte stream fed to the hash (hashlib wrapper) vs Lean Writer.hashFeed/hashFeed2d on every route")
 
 
 def sha(arr):
